@@ -109,7 +109,7 @@ CLAIMED = {
             'DESIGN.md section 3, C17'),
     'C15': ('fault_enumeration',
             'structured mutation fuzzing: Hypothesis-driven (quick) and coverage-guided atheris/libFuzzer (thorough) patches of valid base images taken from independent field maps; exception-type and work-bound oracle',
-            'One decoder turns (base image, patch list) into bytes: 56 valid base images from the history engine (all extension combinations, 8 of them with a real boot info table) are truncated at drawn lengths, have fields from the independent readers\' field maps (lengths, extents, counts, tags, pointers - ISO9660, SUSP, path tables, El Torito, UDF, MBR/GPT) replaced by boundary/cyclic/out-of-range/byte-swapped/random values, or bytes flipped; "pair" cases patch two neighbouring fields of one structure with coordinated values, "resealed" cases make the tag CRC/checksum of every patched UDF descriptor valid again, "pointer" cases give a pointer field the value of another pointer of its kind (self-referencing structures). open_fp on the result must return or raise a PyCdlibException subclass; a deterministic work bound on the reads of the image file, RLIMIT_AS and a 30 s alarm decide termination and memory. The thorough tier adds 15 atheris processes feeding the same decoder (and raw splices) with coverage feedback, from empty and seeded corpora. Violations are bucketed by (exception type, innermost repository frame).',
+            'One decoder turns (base image, patch list) into bytes: 56 valid base images from the history engine (all extension combinations, 8 of them with a real boot info table) are truncated at drawn lengths, have fields from the independent readers\' field maps (lengths, extents, counts, tags, pointers - ISO9660, SUSP, path tables, El Torito, UDF, MBR/GPT) replaced by boundary/cyclic/out-of-range/byte-swapped/random values, or bytes flipped; "pair" cases patch two neighbouring fields of one structure with coordinated values, "resealed" cases make the tag CRC/checksum of every patched UDF descriptor valid again, "pointer" cases give a pointer field the value of another pointer of its kind (self-referencing structures). "smaller" / "larger" cases set sizes, counts and lengths far below / beyond what the image can hold (resealed). open_fp on the result must return or raise a PyCdlibException subclass; in half of the cases the file object behaves like a file of the operating system (OSError for a negative offset, a buffer allocated before reading - a read request out of proportion to the image is MemoryError), and in a quarter the PyCdlib object has had a small volume on a 1 TiB medium open before (close() documents re-use). A deterministic work bound on the reads of the image file, RLIMIT_AS and a budget of 30 s CPU time (ITIMER_VIRTUAL, independent of load) decide termination and memory. The thorough tier adds 15 atheris processes feeding the same decoder (and raw splices) with coverage feedback, from empty and seeded corpora. Violations are bucketed by (exception type, innermost repository frame).',
             'Sampling of the byte-string space around valid images; arbitrary random bytes mostly die at the first magic check and are exercised through the raw-splice mode only.',
             'DESIGN.md section 3, C15'),
 }
